@@ -63,10 +63,14 @@ VARIABLES phase,   \* "base" | "term" | "done"
           sumV, sumVoted, sumPower,
           res,     \* results of Calculate (of the current term)
           term,    \* number of the current term (1..Terms)
-          iscore,  \* [Preps \cup Voters -> Nat]  I-Score credited so far (all terms)
+          iscore,  \* [Preps \cup Voters -> Nat]  I-Score an account holds (credited in all terms, minus claims)
+          newrate, \* [Preps -> Rates \cup {-1}]  commission rate set during the term (in force from the next term), -1: none
+          claim,   \* [Preps \cup Voters -> Nat]  I-Score claimed during the term (taken off at the calculation)
+          claimed, \* total I-Score ever claimed
           hist
 vars == <<phase, off, nbase, nev, rate, pubkey, known, status, dlg, bnd, power, rank, ranked, accV, accP,
-          baseD, baseB, curD, curB, AV, touched, sumV, sumVoted, sumPower, res, term, iscore, hist>>
+          baseD, baseB, curD, curB, AV, touched, sumV, sumVoted, sumPower, res, term, iscore, newrate, claim, claimed, hist>>
+XVars == <<newrate, claim, claimed>>
 
 Min(a, b) == IF a < b THEN a ELSE b
 RECURSIVE SumSeq(_, _, _)
@@ -102,6 +106,7 @@ Init == /\ phase = "base" /\ off = 0 /\ nbase = 0 /\ nev = 0
         /\ sumV = ZeroVP /\ sumVoted = ZeroP /\ sumPower = ZeroP
         /\ res = [done |-> FALSE]
         /\ term = 1 /\ iscore = [x \in Preps \cup Voters |-> 0]
+        /\ newrate = [p \in Preps |-> -1] /\ claim = [x \in Preps \cup Voters |-> 0] /\ claimed = 0
         /\ hist = <<>>
 
 \* a vote held before the term starts (base snapshot)
@@ -206,17 +211,22 @@ Wage(p) == IF Paid(p) /\ bnd[p] >= MinBond THEN MinWage \div Elected ELSE 0
 Share(v, p) == IF p \in touched[v] /\ Rewardable(p) /\ accV[p] # 0 THEN (AV[v][p] * VoterReward(p)) \div accV[p] ELSE 0
 
 Calculate ==
-  /\ phase = "term" /\ off = Limit /\ Elected > 0
+  /\ phase = "term" /\ off = Limit
   /\ phase' = "done"
   /\ iscore' = [x \in Preps \cup Voters |->
-                 iscore[x] + (IF x \in Preps THEN Commission(x) + Wage(x) ELSE SumP([p \in Preps |-> Share(x, p)]))]
+                 iscore[x] - claim[x] + (IF x \in Preps THEN Commission(x) + Wage(x) ELSE SumP([p \in Preps |-> Share(x, p)]))]
   /\ res' = [done |-> TRUE, term |-> term, treward |-> TReward, minwage |-> MinWage, totalap |-> TotalAP,
              prep |-> [p \in Preps |-> [known |-> known[p], rewardable |-> Rewardable(p), accv |-> accV[p], accp |-> accP[p],
                                         commission |-> Commission(p), vreward |-> VoterReward(p), wage |-> Wage(p),
                                         reward |-> Commission(p) + Wage(p)]],
              voter |-> [v \in Voters |-> [av |-> AV[v], share |-> [p \in Preps |-> Share(v, p)],
                                           reward |-> SumP([p \in Preps |-> Share(v, p)])]]]
-  /\ Log([op |-> "calc", res |-> res'])
+  /\ claimed' = claimed + SumP([p \in Preps |-> claim[p]]) + SumVt([v \in Voters |-> claim[v]])
+  /\ UNCHANGED <<newrate, claim>>
+  \* ratefail: P-Reps that set a commission rate in this term but whose Voted record UpdateVoted drops (not enabled, no
+  \* votes, old rate 0): processCommissionRate finds no record for them ("Non PRep set the commission rate")
+  /\ Log([op |-> "calc", res |-> res',
+          ratefail |-> {p \in Preps : newrate[p] >= 0 /\ status[p] \notin {"enable", "nextterm"} /\ dlg[p] = 0 /\ bnd[p] = 0 /\ rate[p] = 0}])
   /\ UNCHANGED <<off, nbase, nev, rate, pubkey, known, status, dlg, bnd, power, rank, ranked, accV, accP, baseD, baseB,
                  curD, curB, AV, touched, sumV, sumVoted, sumPower, term>>
 
@@ -227,10 +237,13 @@ NextTerm ==
   /\ term' = term + 1 /\ phase' = "base" /\ off' = 0 /\ nbase' = MaxBase /\ nev' = 0
   \* icreward State.SetVoted drops a record that is not enabled and has no votes and no commission rate (Voted.IsEmpty)
   /\ LET st(p) == IF status[p] = "nextterm" THEN "enable" ELSE status[p]
-         kept(p) == known[p] /\ ~(st(p) # "enable" /\ dlg[p] = 0 /\ bnd[p] = 0 /\ rate[p] = 0)
+         nr(p) == IF newrate[p] >= 0 THEN newrate[p] ELSE rate[p]       \* processCommissionRate
+         kept(p) == known[p] /\ ~(st(p) # "enable" /\ dlg[p] = 0 /\ bnd[p] = 0 /\ nr(p) = 0)
      IN /\ known' = [p \in Preps |-> kept(p)]
         /\ status' = [p \in Preps |-> IF kept(p) THEN st(p) ELSE "disabled"]
         /\ pubkey' = [p \in Preps |-> kept(p)]
+        /\ rate' = [p \in Preps |-> IF kept(p) THEN nr(p) ELSE 0]
+  /\ newrate' = [p \in Preps |-> -1] /\ claim' = [x \in Preps \cup Voters |-> 0] /\ UNCHANGED claimed
   /\ baseD' = curD /\ baseB' = curB
   /\ power' = ZeroP /\ rank' = ZeroP /\ ranked' = <<>> /\ accV' = ZeroP /\ accP' = ZeroP
   /\ AV' = ZeroVP /\ touched' = [v \in Voters |-> {}]
@@ -239,15 +252,36 @@ NextTerm ==
   /\ Log([op |-> "next", term |-> term'])
   \* loadPRepInfo derives "has all public keys" from the base snapshot; with no DSA required (mask 0) every
   \* P-Rep with a Voted record qualifies, also those that PRepInfo.SetStatus added without key in the last term
-  /\ UNCHANGED <<rate, dlg, bnd, curD, curB, iscore>>
+  /\ UNCHANGED <<dlg, bnd, curD, curB, iscore>>
 
-Next == \/ \E v \in Voters, t \in {"d", "b"}, p \in Preps, a \in Amts : BaseVote(v, t, p, a)
-        \/ StartTerm
-        \/ \E v \in Voters, t \in {"d", "b"}, p \in Preps, a \in Amts : Event(v, t, p, a)
-        \/ \E v \in Voters, t \in {"d", "b"}, p \in Preps, a \in Amts : Event(v, t, p, -a)
-        \/ \E p \in Preps, s \in {"enable", "disabled", "nextterm"} : SetStatus(p, s)
+(* setCommissionRate of an enabled, registered P-Rep during the term (icstage CommissionRate record,
+   calculator.go processCommissionRate): this term is still paid with the old rate *)
+SetRate(p, r) ==
+  /\ phase = "term" /\ nev < MaxEv /\ known[p] /\ status[p] = "enable" /\ r # rate[p] /\ newrate[p] # r
+  /\ nev' = nev + 1
+  /\ newrate' = [newrate EXCEPT ![p] = r]
+  /\ Log([op |-> "rate", p |-> p, a |-> r, off |-> off])
+  /\ UNCHANGED <<phase, off, nbase, rate, pubkey, known, status, dlg, bnd, power, rank, ranked, accV, accP, baseD, baseB,
+                 curD, curB, AV, touched, sumV, sumVoted, sumPower, res, term, iscore, claim, claimed>>
+
+(* claimIScore of everything the account holds (icstage IScoreClaim record, calculator.go processClaim) *)
+ClaimIScore(x) ==
+  /\ phase = "term" /\ nev < MaxEv /\ claim[x] = 0 /\ iscore[x] > 0
+  /\ nev' = nev + 1
+  /\ claim' = [claim EXCEPT ![x] = iscore[x]]
+  /\ Log([op |-> "claim", x |-> x, a |-> iscore[x], off |-> off])
+  /\ UNCHANGED <<phase, off, nbase, rate, pubkey, known, status, dlg, bnd, power, rank, ranked, accV, accP, baseD, baseB,
+                 curD, curB, AV, touched, sumV, sumVoted, sumPower, res, term, iscore, newrate, claimed>>
+
+Next == \/ \E v \in Voters, t \in {"d", "b"}, p \in Preps, a \in Amts : BaseVote(v, t, p, a) /\ UNCHANGED XVars
+        \/ StartTerm /\ UNCHANGED XVars
+        \/ \E v \in Voters, t \in {"d", "b"}, p \in Preps, a \in Amts : Event(v, t, p, a) /\ UNCHANGED XVars
+        \/ \E v \in Voters, t \in {"d", "b"}, p \in Preps, a \in Amts : Event(v, t, p, -a) /\ UNCHANGED XVars
+        \/ \E p \in Preps, s \in {"enable", "disabled", "nextterm"} : SetStatus(p, s) /\ UNCHANGED XVars
+        \/ \E p \in Preps, r \in Rates : SetRate(p, r)
+        \/ \E x \in Preps \cup Voters : ClaimIScore(x)
         \/ NextTerm
-        \/ NextBlock
+        \/ NextBlock /\ UNCHANGED XVars
         \/ Calculate
 Spec == Init /\ [][Next]_vars
 
@@ -255,7 +289,8 @@ Spec == Init /\ [][Next]_vars
 (* C35 *)
 Done == res.done
 \* over all terms so far no more than the terms' funds was credited
-CumulativeBudget == SumP([p \in Preps |-> iscore[p]]) + SumVt([v \in Voters |-> iscore[v]])
+\* (what the accounts hold plus what they claimed is what was credited)
+CumulativeBudget == SumP([p \in Preps |-> iscore[p]]) + SumVt([v \in Voters |-> iscore[v]]) + claimed
                       <= (IF Done THEN term ELSE term - 1) * (TReward + MinWage)
 \* the I-Score credited to P-Reps and voters never exceeds the term's funds
 PRepBudget == Done => SumP([p \in Preps |-> res.prep[p].commission + res.prep[p].vreward]) <= res.treward
